@@ -22,16 +22,40 @@ def gen_cases(seed, tier):
             if rx["reactants"] and rx["type"] != "massaction":
                 rx["type"] = "massaction"; rx["params"] = {"k": rng.choice([0.1, 0.2, 0.5, 1.0])}
         cases.append(c)
+        # time-rescaling family: all rate constants x 10^-e and the grid x 10^e.  The master equation is invariant under this
+        # (same jump chain, waiting times x 10^e), so with the same seed the rows must be those of the unscaled run; the replay
+        # also runs the scaled case itself.  (added after the seeded change S_C05: "Lambda < 1e-9" treated as "nothing can fire")
+        if rng.random() < 0.3:
+            e = rng.choice([3, 6, 9, 12, 15]); c2 = json.loads(json.dumps(c)); f = 10.0 ** (-e)
+            for k in c2["spec"]["parameters"]:
+                if k.startswith(("k_", "kg_")): c2["spec"]["parameters"][k] *= f
+            for rx in c2["spec"]["reactions"]:
+                if not isinstance(rx["params"].get("k", ""), str): rx["params"]["k"] *= f
+            c2["times"] = [t * 10.0 ** e for t in c2["times"]]; c2["rescaled"] = {"exponent": e, "base": c}
+            cases.append(c2)
     return cases
 
-impl_case = R.impl_replay
+def impl_case(case):
+    r = R.impl_replay(case)
+    if "rescaled" in case and isinstance(r, dict) and "rows" in r:
+        rb = R.impl_replay(case["rescaled"]["base"])
+        r["base_rows"] = rb.get("rows") if isinstance(rb, dict) else None
+    return r
 driver_line = R.driver_line
 compare = R.compare
-def oracle(case, r): return c06.oracle(case, r)
+def oracle(case, r):
+    m = c06.oracle(case, r)
+    if m: return m
+    if "rescaled" in case and r.get("base_rows") is not None and r["rows"] != r["base_rows"]:
+        k = next(i for i, (a, b) in enumerate(zip(r["rows"], r["base_rows"])) if a != b) if len(r["rows"]) == len(r["base_rows"]) else -1
+        return "time rescaling: with every rate constant x 1e-%d and the grid x 1e%d (same seed) row %d is %r, the unscaled run has %r" % (
+            case["rescaled"]["exponent"], case["rescaled"]["exponent"], k, [float.fromhex(v) for v in r["rows"][k]] if k >= 0 else len(r["rows"]), [float.fromhex(v) for v in r["base_rows"][k]] if k >= 0 else len(r["base_rows"]))
+    return None
 def nontrivial(case): return True
 def site(case, msg): return (msg or "any").split(":")[0]
 def key(case): return c06.key(case)
-def stats(cases): return c06.stats(cases)
+def stats(cases):
+    d = c06.stats(cases); d["time_rescaled"] = sum(1 for c in cases if "rescaled" in c); return d
 
 # ------------------------------------------------------------------ ensemble check against the exact CME
 def _cme_reference(spec, names, times, maxstates=400, V=None):
